@@ -235,19 +235,7 @@ package rag
 //@ func (*Exporter) ExportToString
 //@   property C14
 //@   flags frameonly, recvreadonly
-//@ func (*Exporter) exportCSV
-//@   property C14
-//@   flags frameonly, recvreadonly
-//@ func (*Exporter) exportJSONL
-//@   property C14
-//@   flags frameonly, recvreadonly
-//@ func (*Exporter) exportJSON
-//@   property C14
-//@   flags frameonly, recvreadonly
 //@ func (*Exporter) collectCSVColumns
-//@   property C14
-//@   flags frameonly, recvreadonly
-//@ func (*Exporter) chunkToCSVRow
 //@   property C14
 //@   flags frameonly, recvreadonly
 
@@ -304,3 +292,49 @@ package rag
 //@     invariant len(ownText) == len(chunks) && len(result) == len(chunks) && forall k int :: {ownText[k]} 0 <= k && k < $i ==> sameseq(ownText[k], old(chunks)[k].Text)
 //@   loop 1:
 //@     invariant len(ownText) == len(old(chunks)) && len(result) == len(chunks) && len(chunks) == len(old(chunks)) && forall k int :: {ownText[k]} 0 <= k && k < len(ownText) ==> sameseq(ownText[k], old(chunks)[k].Text)
+
+// ---- C14: one record per chunk, in order, with the chunk's id, text and metadata values ----
+//@ func (*Exporter) prepareChunkForExport results (r)
+//@   property C14
+//@   flags pure, recvreadonly
+//@   ensures same_id: r.ID == chunk.ID
+//@   ensures same_text: e.config.IncludeText ==> r.Text == chunk.Text
+//@   ensures same_position_metadata: r.ChunkIndex == chunk.Metadata.ChunkIndex && r.PageStart == chunk.Metadata.PageStart && r.PageEnd == chunk.Metadata.PageEnd && r.DocumentTitle == chunk.Metadata.DocumentTitle && r.SectionTitle == chunk.Metadata.SectionTitle
+//@   ensures same_flags: r.HasTable == chunk.Metadata.HasTable && r.HasList == chunk.Metadata.HasList && r.HasImage == chunk.Metadata.HasImage
+
+//@ func (*Exporter) getColumnValue results (v)
+//@   property C14
+//@   flags pure, recvreadonly
+//@   ensures id_column: column == e.config.ChunkIDColumnName ==> v == chunk.ID
+//@   ensures text_column: column != e.config.ChunkIDColumnName && column == e.config.TextColumnName ==> v == chunk.Text
+//@   ensures title_columns: column != e.config.ChunkIDColumnName && column != e.config.TextColumnName ==> (column == "document_title" ==> v == chunk.DocumentTitle) && (column == "section_title" ==> v == chunk.SectionTitle)
+
+// one field per column, in column order
+//@ func (*Exporter) chunkToCSVRow results (row)
+//@   property C14
+//@   flags pure, recvreadonly
+//@   ensures one_field_per_column: len(row) == len(columns) && forall k int :: {row[k]} 0 <= k && k < len(columns) ==> row[k] == e.getColumnValue(chunk, columns[k])
+//@   loop 0:
+//@     invariant len(row) == len(columns) && forall k int :: {row[k]} 0 <= k && k < $i ==> row[k] == e.getColumnValue(chunk, columns[k])
+
+// CSV/TSV: the header (if any) is the column list; then exactly one row per chunk, in order, built from that chunk
+// with the one column list
+//@ func (*Exporter) exportCSV results (err)
+//@   property C14
+//@   flags recvreadonly, nosafety
+//@   callsite Write#1(rec) requires sameseq(rec, columns)
+//@   callsite Write#2(rec) requires sameseq(rec, e.chunkToCSVRow(e.prepareChunkForExport(chunks[i], i), columns))
+
+// JSON Lines: exactly one Encode per chunk, in order, of that chunk's record
+//@ func (*Exporter) exportJSONL results (err)
+//@   property C14
+//@   flags recvreadonly, nosafety
+//@   callsite Encode(v) requires v == e.prepareChunkForExport(chunks[i], i)
+
+// JSON: one array with the records of all chunks in order
+//@ func (*Exporter) exportJSON results (err)
+//@   property C14
+//@   flags recvreadonly, nosafety
+//@   callsite Encode(v) requires len(v) == len(chunks) && forall k int :: {v[k]} 0 <= k && k < len(chunks) ==> v[k] == e.prepareChunkForExport(chunks[k], k)
+//@   loop 0:
+//@     invariant len(exported) == len(chunks) && forall k int :: {exported[k]} 0 <= k && k < $i ==> exported[k] == e.prepareChunkForExport(chunks[k], k)
